@@ -646,6 +646,45 @@ func runHubWalk(c *vk.Ctx, cfg HubCfg, walk []*graph.Edge, shape Shape, seed int
 			hookStats.add(c, cfg.Disk, h.hooks.Events(), func() string { return cfg.String() })
 		}
 	}()
+	// between any two steps other certificates may be presented: handshakes that change nothing in the specification (a
+	// certificate without distribution points, one whose distribution points are unusable, no chain at all) are woven into the
+	// walk - whatever they leave behind in the code must not change what the following steps do
+	if len(walk) > 2 {
+		wr := rand.New(rand.NewSource(seed*31 + 5))
+		var woven []*graph.Edge
+		loopsAt := func(state string) []*graph.Edge {
+			var loops []*graph.Edge
+			for _, g := range hubGraphs {
+				for _, o := range g.Out[state] {
+					if o.To == o.From && strings.HasPrefix(opName(o), "handshake") {
+						loops = append(loops, o)
+					}
+				}
+			}
+			return loops
+		}
+		for _, e := range walk {
+			// around a pass (refresh, background load) all of them, before and after, in half of the cases: a pass works with
+			// what earlier handshakes left in the entries
+			pass := opName(e) == "refresh" || opName(e) == "bgload"
+			around := pass && wr.Intn(2) == 0
+			if around {
+				woven = append(woven, loopsAt(e.From)...)
+			}
+			woven = append(woven, e)
+			if around {
+				woven = append(woven, loopsAt(e.To)...)
+				continue
+			}
+			if wr.Intn(3) != 0 {
+				continue
+			}
+			if loops := loopsAt(e.To); len(loops) > 0 {
+				woven = append(woven, loops[wr.Intn(len(loops))])
+			}
+		}
+		walk = woven
+	}
 	var hist []hubStep
 	done := 0
 	for _, e := range walk {
